@@ -477,9 +477,26 @@ class Interp:
             return self._sym_for(s, it, env, mod, fn)
         if s.orelse:
             raise Undecided("for-else")
-        for v in _iterate(it):
+        cut = None
+        if fn is not None and self.world.loop_specs:
+            fenv = env
+            while fenv is not None and fenv.kind != "function":
+                fenv = fenv.parent
+            if fenv is not None:
+                ordinal = fenv.vars.get("__loopcount__", 0)
+                fenv.vars["__loopcount__"] = ordinal + 1
+                spec = self.world.loop_specs.get((fn.pyvc_qualname, ordinal))
+                if spec is not None and getattr(spec, "cut", False):
+                    cut = spec
+        for k, v in enumerate(_iterate(it)):
+            if cut is not None:
+                from .loops import cut_point
+
+                cut_point(self, cut, k, env)
             self.assign(s.target, v, env, mod)
             self.exec_block(s.body, env, mod, fn)
+            if cut is not None and cut.after is not None:
+                cut.after(k, {name: env.lookup(name) for name in list(cut.variables) + list(getattr(cut, "observe", ()))})
 
     def s_Import(self, s, env, mod, fn):
         for a in s.names:
